@@ -266,11 +266,14 @@ def judge(events, wdir, nshards=None, timeout=3600):
     return res
 
 
+MODEL_ENV = {"FORMATS": FORMATS, "DOCS": os.path.join(HARNESS, "docs.ndjson")}
+
+
 def run_model(module, cfg, workers=4, timeout=1800, extra=None, heap="4g"):
     """Run a bounded model; returns dict(states, transitions, wall, out); raises ToolError when TLC
     reports an error that is not an invariant violation; returns ok False on a violation."""
     t0 = time.time()
-    rc, out = run_tlc(module, cfg, workers=workers, timeout=timeout, extra=extra, heap=heap)
+    rc, out = run_tlc(module, cfg, env=MODEL_ENV, workers=workers, timeout=timeout, extra=extra, heap=heap)
     states, trans = tlc_stats(out)
     ok = rc == 0 and "No error has been found" in out
     viol = "Invariant" in out and "is violated" in out
